@@ -92,12 +92,33 @@ CHECKS = {
         "SQLite commit atomic (journal trusted); no cross-file write reordering or power loss; mkdir is not a crash point.",
         "§4 C13",
     ),
+    "C14": (
+        "exploration",
+        "exhaustive small-scope enumeration of (rename pair x subsets of confusable link texts) through the real CLI, byte-compared with an independent link-token rewrite",
+        "6 renames x every subset of size <= 2 (quick) / <= 3 (thorough) of 13 link texts confusable with the page name (+ the full set), written into the renamed page, another page, a deep page, a .zot template, a .zoq page and a non-zorg file; the real `zorg file rename` runs in a fresh process; file set and every byte must equal the independent rewrite; compiled link sets must differ by exactly the substitution.",
+        "Destination directory exists; closed link texts only.",
+        "§4 C14",
+    ),
     "C15": (
         "exploration",
         "exhaustive enumeration of acyclic saved-query sets x referencing queries on a real index, judged by substitution-as-sub-expression in the set-algebra model",
         "Every acyclic assignment of 7 reference-free and 3 referencing clause forms to three saved-query names (910 sets, written with three S/O/G wrapper styles) times 10 referencing query forms is expanded by the real expand_saved_queries and executed by the real repository on an index built by db create; the selected ZIDs (or the count) must equal the model's evaluation with every reference substituted as a sub-expression; the expansion must be well-formed and reference-free; 5 queries naming a missing saved query must make expansion fail and execute raise.",
         "Acyclic sets only; one designed corpus; saved pages without a W clause are not explored.",
         "§4 C15",
+    ),
+    "C16": (
+        "exploration",
+        "exhaustive enumeration of ordered pattern maps x targets x flags through the real init_from_template and CLI, judged by an oracle-side jinja2 rendering",
+        "Every ordered pattern map of size <= 2 (quick) / <= 3 (thorough) over 6 patterns x 7 targets x {missing, existing} x overwrite x explicit template x 3 variable maps through the real function, plus 10 maps through `zorg template init` with the map read from YAML in order: existing-and-not-forced files keep bytes and mtime, missing files get exactly the oracle's rendering of the first matching pattern's template body, nothing (no file, no directory) is created without a template, and a second invocation changes nothing.",
+        "ZorgTemplateManager's process-global scratch directory is re-created per worker; edit / action open / note move reach the same function.",
+        "§4 C16",
+    ),
+    "C17": (
+        "exploration",
+        "exhaustive enumeration of lines (prefix x target sequence x wrapper) x option indices on the real command, with a scanner/resolver model and a differential single-target oracle",
+        "Every line of the enumerated family, in a .zo and a .zoq page of a directory indexed by the real db create, is passed to the real `action open` for every option index in {absent, 1..n, -1, n+1, 0}: output must be protocol lines only, 0 targets => ECHO, >= 2 => PROMPT in line order (primary ZID only in .zoq), a chosen target must resolve as its kind demands (owners taken from the raw index) and behave exactly like a line holding only that target; out-of-range => non-zero exit and no EDIT.",
+        "Named-URL and cite-key targets start external programs and are not driven; in-process calls cross-checked against forked CLI processes on a sample.",
+        "§4 C17",
     ),
     "C18": (
         "exploration",
